@@ -132,8 +132,13 @@ def sitesOf (fn : String) : List (List String × List String × String) :=
 def nonDecodeSites : List String := ["encode.by_type", "encode.field_table", "frame.unmarshal", "frame.frame_parts",
   "frame._unmarshal_method_frame", "frame._unmarshal_header_frame", "header.ProtocolHeader.unmarshal"]
 
-def guardOf (fn : String) : List (String × Option Int × Option Int × String × String) :=
-  (Generated.guards.filter (·.fn == fn)).map (fun g => (g.isinstanceOf, g.lo, g.hi, g.exc, g.packer))
+/-- the guard proper: accepted Python type, range, exception raised otherwise -/
+def guardOf (fn : String) : List (String × Option Int × Option Int × String) :=
+  (Generated.guards.filter (·.fn == fn)).map (fun g => (g.isinstanceOf, g.lo, g.hi, g.exc))
+
+/-- which `struct` member (or format) the function's return statement packs with: a fact about the shape of the source -/
+def packerOf (fn : String) : List String :=
+  (Generated.guards.filter (·.fn == fn)).map (·.packer)
 
 def timeWhitelist : List String := [
   "datetime.datetime(1970, 1, 1, tzinfo=datetime.timezone.utc)",
